@@ -99,9 +99,13 @@ pub struct CrashOpts {
     /// restrict to crash points inside calls of this kind
     pub only_kind: Option<&'static str>,
     pub prop: &'static str,
-    /// writable may be either before/after value regardless (C12 (iii))
+    /// run the fixed usability continuation on the recovered core
     pub continuation: bool,
 }
+
+/// Extra, scenario-specific continuation on the recovered core (e.g. honest replication from
+/// the uncrashed writer must still complete on a recovered replica).
+pub type ExtraCont<'a> = Option<&'a mut dyn FnMut(&mut Sut) -> Result<(), Fail>>;
 
 pub fn tear_cuts(off: u64, len: usize, store: usize, r: &mut Rng, random_cuts: u64) -> Vec<usize> {
     let mut cuts: Vec<usize> = vec![];
@@ -246,6 +250,10 @@ pub fn continuation(sut: &mut Sut) -> Result<(), Fail> {
 
 /// Enumerate crash points (and tear cuts) of a recorded execution.
 pub fn enumerate(ctx: &mut Ctx, rec: &Recorded, o: &CrashOpts, r: &mut Rng) {
+    enumerate_with(ctx, rec, o, r, None)
+}
+
+pub fn enumerate_with(ctx: &mut Ctx, rec: &Recorded, o: &CrashOpts, r: &mut Rng, mut extra: ExtraCont<'_>) {
     let m = rec.journal.len();
     let mut files: Files = Default::default();
     let mut bad = 0;
@@ -307,7 +315,19 @@ pub fn enumerate(ctx: &mut Ctx, rec: &Recorded, o: &CrashOpts, r: &mut Rng) {
                 ctx.eval(Some(h));
                 let res = recover_and_match(f, &allowed, allow_no_core, rec.key_seed, o.mask, o.get_cap, false)
                     .and_then(|s| match s {
-                        Some(mut sut) if o.continuation => continuation(&mut sut),
+                        Some(mut sut) if o.continuation => {
+                            if let Some(x) = extra.as_mut() {
+                                // on a copy of the recovered image, so that both continuations start
+                                // from the recovered state
+                                let files = crate::world::snapshot(&sut.world);
+                                let w2 = World::from_files(files);
+                                if let Ok(Ok(c2)) = build_core(&w2, None, true, CacheMode::None) {
+                                    let mut s2 = Sut { world: w2, core: Some(c2), model: sut.model.clone(), key: sut.key.clone(), cache: CacheMode::None, get_cap: sut.get_cap, cmp_mask: sut.cmp_mask, steps: 0, plain_reopen_every: 0, reopens: 0 };
+                                    x(&mut s2)?;
+                                }
+                            }
+                            continuation(&mut sut)
+                        }
                         _ => Ok(()),
                     });
                 if let Err(fl) = res {
